@@ -24,20 +24,51 @@ def cases(tier, rng):
         init = {e: [c for c in menu if rng.random() < .7] for e in ents if rng.random() < .8}
         yield (build_scenario(rng, menu, ents, random_plan(rng, menu, ents, L, rng.randint(1, 8)), L, init), 'random')
 
+def react_cases(tier, rng):
+    import re
+    kinds = ['EStarted', 'EOngoing', 'EFired', 'ECanceled', 'ECompleted']
+    def one(menu, ents, L, reacts_of):
+        cfg = make_cfg(rng, menu, ents, L)
+        init = {e: list(menu) for e in ents}
+        sc = build_scenario(rng, menu, ents, [], L, init, cfg=cfg)
+        aids_ = sorted(set(int(x) for x in re.findall(r'\(mkAction (\d+)', sc)))
+        rs = reacts_of(aids_)
+        return '(reacting %s %s)' % (lst('(mkReact %d %s %d %s)' % r for r in rs), sc)
+    # every (event kind, op) pair as a single reaction on the first action of each context, exclusive and shared
+    for menu in ([0, 1], [2, 3]):
+        ents = [0, 1]
+        for k in kinds:
+            for which in (0, 1):
+                for o in [remove(0, menu[which]), despawn(0), REBUILD, remove(1, menu[1]), insert(0, menu[which])]:
+                    for ai in (0, 2):
+                        yield (one(menu, ents, 8, lambda aids_: [(aids_[min(ai, len(aids_) - 1)], k, -1, o)]), 'single-reaction')
+    for _ in range(2000 if tier == 'thorough' else 200):
+        menu = pick_menu(rng, rng.randint(1, 3)); ents = [0, 1, 2][:rng.randint(1, 3)]
+        L = rng.randint(6, 14)
+        al = ops_alphabet(menu, ents)
+        yield (one(menu, ents, L, lambda aids_: [(rng.choice(aids_), rng.choice(kinds), rng.choice([-1] + ents), rng.choice(al)) for _ in range(rng.randint(1, 4))]), 'random-reactions')
+
 def nontrivial(case, out):
     return ('ECanceled' in out or 'ECompleted' in out)
 
-STAGES = [dict(name='episodes', mode='app', coq='Check.C02c', cases=cases, nontrivial=nontrivial, shard=25,
+STAGES = [dict(name='reactions', mode='app', coq='Check.C02r', cases=react_cases, nontrivial=nontrivial, shard=25, noshrink=True,
+               exhaustive={'thorough': False, 'quick': True},
+               rule='deactivation requested from inside an observer of the same frame\'s action events: a reaction (fires once) issues remove / despawn / rebuild / insert through the observer\'s Commands when an '
+                    'event of a chosen action and kind (Started, Ongoing, Fired, Canceled, Completed) is delivered; every (kind, op) pair on two actions of an exclusive and a shared type, and random sets of 1-4 '
+                    'reactions; the delivery order (closing events overtaking the rest of the frame) is compared with the model, and per (entity, action) every episode must be closed exactly once'),
+          dict(name='episodes', mode='app', coq='Check.C02c', cases=cases, nontrivial=nontrivial, shard=25,
                exhaustive={'thorough': False, 'quick': True},
                rule='real App, an exclusive and a shared context type, 2-3 entities, two actions per context driven by scripted states cycling through None/Ongoing/Fired; '
                     'exhaustive: every single op from {insert, remove, despawn, respawn, rebuild} x entity x type issued after a frame in which the state is Ongoing / Fired / None, '
                     'directly between frames and through Commands from an Update system (264 histories); thorough adds 2500 ordered pairs; random interleavings of 1-8 ops over 6-30 frames. '
                     'non-trivial = a terminal event is delivered; distinct = distinct scenario text')]
+CLAUSES_R = {1: 'an entity that does not hold the context received an event (or a joining one a Started from the old instance)', 2: 'an episode was closed twice or started twice (Started minus terminal events left {0,1})',
+             4: 'a deactivated instance left an episode open (no terminal event) or closed it more than once', 8: 'panic', 9: 'malformed trace', 10: 'panic'}
 CLAUSES = {1: 'an event was delivered for an (entity, action) whose context instance is gone', 2: 'the events of a frame do not continue a well-formed episode (Started+companion, one Ongoing/Fired per frame, matching terminal)',
            3: 'an event carries a state other than the one the episode is in', 4: 'deactivation (remove / despawn / rebuild) did not close the open episode with exactly its terminal event (zero value, state None), or closed an idle one',
            5: 'events delivered outside the frame evaluation without a deactivation', 6: 'events delivered before the frame evaluation', 8: 'panic', 9: 'malformed trace', 10: 'panic'}
-def describe(stage, clause): return CLAUSES.get(clause, 'clause %d' % clause)
+def describe(stage, clause): return (CLAUSES_R if stage == 'reactions' else CLAUSES).get(clause, 'clause %d' % clause)
 def matches_known(k, case, verdict): return False
 TRUSTED = TRUSTED_BASE + ['Bevy 0.15 observer/command discipline modelled operationally (coq/Model/Frame.v), validated by the traces']
-ASSUMES = ['no events-only blockers in this profile', 'deactivation from inside an observer of the same frame (third sentence of the property) is not exercised yet: the harness issues ops between frames and from an Update system',
+ASSUMES = ['no events-only blockers in this profile', 'ops are issued between frames, through Commands from an Update system (at most one per frame), and from inside observers of action events (reactions stage)',
            'the harness flushes the world after each direct op, so closing events are observed within the op step']
